@@ -186,10 +186,11 @@ func FuncBuilder(env *Zlisp, name string,
 
 	// minimal sanity check that we return the number of arguments
 	// on the stack that are declared
-	if len(body) == 0 {
-		for range retHash.KeyOrder {
-			gen.AddInstruction(PushInstr{expr: SexpNull})
-		}
+	if len(body) == 0 && len(retHash.KeyOrder) > 0 {
+		// a call has one value, however many results are declared:
+		// pushing one nil per declared result left the extra ones
+		// on the caller's data stack after every call.
+		gen.AddInstruction(PushInstr{expr: SexpNull})
 	}
 
 	gen.AddInstruction(RemoveScopeInstr{})
